@@ -63,6 +63,16 @@ func VerifC14Reader() {
 	case 8:
 		err = WalkFromMarkdown(r, func(*WalkerNode) error { return nil }, WithMassive(ctx))
 	case 9:
+		// distinct root names: the massive mkdir refuses a root it has made already (two blocks of one name), and
+		// which of two failures of one call comes back first is the scheduler's choice; the reader's failure has to be
+		// the only one for "the call returns that error" to be decidable
+		for i := range lines {
+			for j := 0; j < i; j++ {
+				if lines[i].depth == 0 && lines[j].depth == 0 {
+					verifAssume(lines[i].name != lines[j].name)
+				}
+			}
+		}
 		vfsReset()
 		vfsSeal()
 		err = MkdirFromMarkdown(r, WithMassive(ctx), WithTargetDir(vfsTarget()))
